@@ -153,8 +153,8 @@ def judge(run, spec, r):
     sigs = []
     if r.impl.startswith('CRASH') or r.impl.startswith('TIMEOUT'):
         if spec.get('crash'):
-            if r.impl.startswith('CRASH Timeout') and r.o.get('arithmetic') == 'rational' and r.o['rule'] in ('meek', 'warren'):
-                return []       # CPU budget overrun of exact Meek: 'not explored'
+            if r.impl.startswith('CRASH Timeout') and r.o['rule'] in gen.MEEKFAM:
+                return []       # CPU budget overrun of an iteration that is still making progress: 'not explored'
             sigs.append(r.impl.split(' | ')[0])
             return sigs
         if r.partial is None or not r.impl_or:
@@ -344,7 +344,7 @@ def wigm_fixed4(rng, rule, lowprec=False, rational_meek=False):
 @prop('C01')
 def C01(run):
     count_property(run, dict(rules=ALL, keys=['C01'], crash=True, proj=proj_C01, lowprec=0.04, rational_meek=0.01,
-                             quick=5000, thorough=150000, limit=10.0))
+                             quick=20000, thorough=300000, limit=10.0))
 
 
 @prop('C02')
